@@ -85,9 +85,14 @@ Inductive ty :=
 | TSlice (e : ty)
 | TArray (n : N) (e : ty)
 | TMap (k v : ty)
-| TIfaceLit (text : bytes).                       (* an unnamed interface type with methods, e.g. interface{ M() string } *)
+| TIfaceLit (text : bytes)                        (* an unnamed interface type with methods, e.g. interface{ M() string } *)
+| TAlias (pkg name : bytes) (rhs : ty).           (* *types.Alias (materialised by go/types since Go 1.23): `type name = rhs`
+                                                     declared in package pkg, without type arguments; rhs = x.Rhs() *)
 
 Record field := mk_field { f_name : bytes; f_ty : ty; f_tag : bytes }.
+
+(* types.Unalias *)
+Fixpoint unalias (t : ty) : ty := match t with TAlias _ _ r => unalias r | _ => t end.
 
 (* ---- rendered type expressions ---- *)
 
@@ -122,6 +127,17 @@ Section WithTracker.
     | TArray n e => let (o, i) := type_lit e in (OArray n o, i)
     | TMap k v => let (ok, ik) := type_lit k in let (ov, iv) := type_lit v in (OMap ok ov, ik ++ iv)
     | TIfaceLit _ => (OIdent (bs "any"), [])      (* dumper.go:81-82: every unnamed interface is printed `any` *)
+    | TAlias _ _ r => type_lit r                  (* typesx.FromTType: `case *types.Alias: return FromTType(x.Rhs())`, also
+                                                     behind every Elem()/Key(): an alias below the top level is expanded *)
+    end.
+
+  (* snippet.ID(f.Type()) for a struct field (snippet__id.go:82-94): a type that IS an alias is printed by its own name
+     (ParseRef(x.String()) = (pkg, name) for an alias without type arguments, then rawNamer.Name); everything else goes
+     to Dumper.TypeLit *)
+  Definition field_type_lit (t : ty) : oty * list bytes :=
+    match t with
+    | TAlias pkg name _ => if bytes_eqb pkg target then (OIdent name, []) else (OSel (L pkg) name, [pkg])
+    | _ => type_lit t
     end.
 
   (* ---- snippet.ID(string): gengotypes.ParseRef, then rawNamer.Name / processName (pkg/types/ref.go:23-32, 67-124) ---- *)
@@ -224,7 +240,7 @@ Section WithTracker.
             end
         end
     | None =>
-        let (o, ti) := type_lit (f_ty f) in
+        let (o, ti) := field_type_lit (f_ty f) in
         match render_tag (f_tag f) with
         | IdOk gt gi => GOk (mk_gfield (f_name f) o gt) (ti ++ gi)
         | IdPanic => GPanic
@@ -286,9 +302,22 @@ Section WithTracker.
   Definition is_uiface (u : ukind) : bool := match u with UIface => true | _ => false end.
   Definition is_umap (u : ukind) : bool := match u with UMap => true | _ => false end.
 
-  (* createFieldSnippet; [replaced] = the FieldContext callback of partialstruct returned a context *)
-  Definition field_stmt (replaced : bool) (f : field) : genres stmt :=
-    match f_ty f with
+  (* copy_fields.go:59-64 (repair C18-replace-on-alias-field): `fieldType := f.Type()`, and if types.Unalias(fieldType) is a
+     *types.Named (error included) the switch runs on that named type; every other alias stays a *types.Alias.
+     [ua] = false is the code before the repair: no unaliasing at all *)
+  Definition switch_type (ua : bool) (t : ty) : ty :=
+    if ua then match unalias t with
+               | TNamed p n u ms => TNamed p n u ms
+               | TError => TError
+               | _ => t
+               end
+    else t.
+
+  (* createFieldSnippet; [replaced] = the FieldContext callback of partialstruct returned a context.  The type
+     expression of a container copy is rendered from the switch variable x (snippet.ID(x)) *)
+  Definition field_stmt_gen (ua : bool) (replaced : bool) (f : field) : genres stmt :=
+    let t := switch_type ua (f_ty f) in
+    match t with
     | TNamed pkg _ u ms =>
         if replaced then GOk (select_named (f_name f) (true, true, true)) []
         else
@@ -303,10 +332,13 @@ Section WithTracker.
         if replaced then GOk (select_named (f_name f) (true, true, true)) []
         else if fx_errnil c then GOk (SAssign (f_name f)) []     (* guarded: error has the single method Error *)
         else GPanic                                                (* x.Obj().Pkg().Path() on a nil package *)
-    | TMap _ _ => let (o, i) := type_lit (f_ty f) in GOk (SCopyMap (f_name f) o) i
-    | TSlice _ => let (o, i) := type_lit (f_ty f) in GOk (SCopySlice (f_name f) o) i
-    | _ => GOk (SAssign (f_name f)) []
+    | TMap _ _ => let (o, i) := type_lit t in GOk (SCopyMap (f_name f) o) i
+    | TSlice _ => let (o, i) := type_lit t in GOk (SCopySlice (f_name f) o) i
+    | _ => GOk (SAssign (f_name f)) []      (* also an alias of anything but a named type: the type switch has no case for
+                                               *types.Alias; the FieldContext callback is not consulted *)
     end.
+
+  Definition field_stmt : bool -> field -> genres stmt := field_stmt_gen true.
 
   Fixpoint gen_stmts_loop (omit : list bytes) (repl : list (bytes * list bytes)) (fs : list field)
            (acc : list stmt) (imps : list bytes) : genres (list stmt) :=
@@ -514,7 +546,20 @@ Fixpoint nodupb (l : list bytes) : bool :=
   end.
 
 (* the printed expression denotes the go/types type, foreign packages resolved through the file's import block *)
-Fixpoint denotes (imps : list (bytes * bytes)) (target : bytes) (o : oty) (t : ty) : bool :=
+(* a named or alias type printed by its own name *)
+Definition denotes_ref (imps : list (bytes * bytes)) (target : bytes) (o : oty) (p n' : bytes) : bool :=
+  match o with
+  | OIdent n => bytes_eqb p target && bytes_eqb n n'
+  | OSel q n => negb (bytes_eqb p target) && bytes_eqb n n' && option_eqb bytes_eqb (resolve imps q) (Some p)
+  | _ => false
+  end.
+
+Fixpoint denotes (imps : list (bytes * bytes)) (target : bytes) (o : oty) (t : ty) {struct t} : bool :=
+  match t with
+  | TAlias p n' r =>
+      (* an alias and its right-hand side are one and the same type: either spelling denotes it *)
+      denotes_ref imps target o p n' || denotes imps target o r
+  | _ =>
   match o, t with
   | OIdent n, TBasic n' => bytes_eqb n n'
   | OIdent n, TAny => bytes_eqb n (bs "any")
@@ -528,6 +573,7 @@ Fixpoint denotes (imps : list (bytes * bytes)) (target : bytes) (o : oty) (t : t
   | OMap k a, TMap l b => denotes imps target k l && denotes imps target a b
   | OText t, TIfaceLit t' => bytes_eqb t t'
   | _, _ => false
+  end
   end.
 
 
@@ -551,8 +597,13 @@ Fixpoint ty_pkgs (t : ty) : list bytes :=
   | TNamed p _ _ _ => [p]
   | TPtr e | TSlice e | TArray _ e => ty_pkgs e
   | TMap k v => ty_pkgs k ++ ty_pkgs v
+  | TAlias _ _ r => ty_pkgs r          (* below the top level an alias is rendered through its right-hand side *)
   | _ => []
   end.
+
+(* the packages the rendering of a FIELD's type mentions: a top-level alias is printed by name *)
+Definition fty_pkgs (t : ty) : list bytes :=
+  match t with TAlias p _ _ => [p] | _ => ty_pkgs t end.
 
 Definition is_container (t : ty) : bool := match t with TSlice _ | TMap _ _ => true | _ => false end.
 
@@ -588,8 +639,13 @@ Fixpoint has_iface_lit (t : ty) : bool :=
   | TIfaceLit _ => true
   | TPtr e | TSlice e | TArray _ e => has_iface_lit e
   | TMap k v => has_iface_lit k || has_iface_lit v
+  | TAlias _ _ r => has_iface_lit r
   | _ => false
   end.
+
+(* for a field's type: an alias at the top level is printed by name, whatever it stands for *)
+Definition fhas_iface_lit (t : ty) : bool :=
+  match t with TAlias _ _ _ => false | _ => has_iface_lit t end.
 
 Definition iface_type (ti : tinput) : bool :=
   ti_enabled ti &&
@@ -597,7 +653,7 @@ Definition iface_type (ti : tinput) : bool :=
   | Some fs, Some _ =>
       existsb (fun f => negb (omitted (ti_omit ti) (f_name f))
                         && match lookup (f_name f) (replace_map (ti_replace ti) []) with Some _ => false | None => true end
-                        && has_iface_lit (f_ty f)) fs
+                        && fhas_iface_lit (f_ty f)) fs
   | _, _ => false
   end.
 
